@@ -140,3 +140,13 @@ func verifYield(mu *sync.Mutex) {
 
 // VerifPoolMuAddr identifies the log a yield belongs to.
 func (l *Log) VerifPoolMuAddr() *sync.Mutex { return &l.poolMu }
+
+// VerifYieldPoint, when set, is called after every close of a pool's done
+// channel (inserted by tools/mkoverlay.py like verifYield).
+var VerifYieldPoint func()
+
+func verifYieldPoint() {
+	if f := VerifYieldPoint; f != nil {
+		f()
+	}
+}
